@@ -31,6 +31,9 @@ func (self ValueRange) Display() (string, *VmInterrupt) {
 }
 
 func (self ValueRange) IsEqual(other Value) (bool, *VmInterrupt) {
+	if other.Kind() != self.Kind() {
+		return false, nil // values of different kinds (elements of an `[any]`, content of a `{ ? }`) are not equal
+	}
 	otherRange := other.(ValueRange)
 	return *self.Start == *otherRange.Start && *self.End == *otherRange.End &&
 		self.EndIsInclusive == otherRange.EndIsInclusive, nil
